@@ -83,6 +83,12 @@ check('C13', 'exploration', 'round-trip oracle: to_dict -> JSON -> from_dict -> 
       'is reported with its path class as mechanism key; rule conditions are additionally compared as AND-of-OR shapes because identical text can hide a regrouping.',
       'Normalisations are exactly those of the statement (tuples, empty pattern names, demand-less junction -> one zero demand) plus runs of blanks in control text.', 'DESIGN.md#C13')
 
+check('C18', 'exploration', 'reference-model monitor: union-find partition of nodes U links vs the labels returned by valve_segments (bijection label <-> class), recounted segment sizes, re-derived valve attributes',
+      'Random multigraphs (parallel links, dead ends, second component, isolated node) x valve layers (0-100 % density, duplicated rows, '
+      'subset numbering, rings around a node, generate_valve_layer strategic/random): labels positive, same label <=> same union-find class, '
+      'seg_sizes recounted, num_surround / demand_increase / length_increase recomputed per valve.',
+      'A valve row names a link and one of its end nodes; counting convention for num_surround as documented (valves adjacent to either segment).', 'DESIGN.md#C18')
+
 NOT_YET = 'monitor not built yet in this commit (planned in DESIGN.md section 4)'
 ALL = ['C%02d' % i for i in range(1, 21)]
 
